@@ -5,8 +5,9 @@ cd /verif
 export CARGO_NET_OFFLINE=true
 mkdir -p .cache/extract evidence replays
 python3 translator/rs2v.py || true          # a broken tie is reported by the checks, not by setup
+for f in coq/Run/*Extract.v; do u=$(basename $f Extract.v | tr A-Z a-z); mkdir -p .cache/extract/$u; done
 bin/cm                                    # full .vo build of the whole development
-runner/build.sh                           # extracted model runner
+for f in coq/Run/*Extract.v; do u=$(basename $f Extract.v | tr A-Z a-z); runner/build.sh $u; done
 cp /repo/Cargo.lock harness/Cargo.lock
-( cd harness && cargo build --release --offline --features hooks )
+( cd harness && cargo build --release --offline --features hooks --bins )
 echo setup-ok
